@@ -13,17 +13,22 @@ FUNCTIONAL = True
 def valid_line(rng):
     r = rng.random()
     if r < 0.4:
+        if rng.random() < 0.06:
+            return rng.choice(["\u2028", "\u00a0", "\u0085", "\u3000", "\u2028\u00a0"]).encode()    # a file named by Unicode white space only
         return plgen.filename(rng).replace(b"\n", b"x") or b"f"
     if r < 0.55:
         return b"@ignore"
     if r < 0.7:
-        return b"@cwd " + rng.choice([b"/usr/pkg", b"/", b"/opt/", b"rel", b"\xe9/", b"/a b"])
+        # incl. directories that differ only in bytes that are not UTF-8 (equal after a lossy conversion)
+        return b"@cwd " + rng.choice([b"/usr/pkg", b"/", b"/opt/", b"rel", b"\xe9/", b"/a b", b"/opt/caf\xe9", b"/opt/caf\xe8", b"/opt/caf\xe9/", b"/opt/caf\xff", b"/opt/caf\xc3\xa9"])
     c = rng.choice(["@exec", "@unexec", "@pkgdir", "@dirrm", "@display", "@name", "@pkgdep", "@blddep", "@pkgcfl", "@mode", "@owner", "@group", "@comment", "@option"])
     if c == "@option":
         return b"@option preserve"
     if c in ("@mode", "@owner", "@group", "@comment") and rng.random() < 0.4:
         return c.encode()
-    return c.encode() + b" " + rng.choice([b"x", b"foo-1.0", b"bin", b"0644", b"a b", b"caf\xc3\xa9"])
+    # incl. arguments that are nothing but Unicode (not ASCII) white space, and long ones
+    return c.encode() + b" " + rng.choice([b"x", b"foo-1.0", b"bin", b"0644", b"a b", b"caf\xc3\xa9", "\u3000".encode(), "\u0085".encode(), "\u00a0\u2028".encode(), b"\x0b",
+                                            b"real-1.0", b"n" * 255, b"n" * 256, b"{a,b}" * 60 + b">=1.0"])
 
 
 def generate(rng, tier):
